@@ -52,7 +52,7 @@ def do_import(wt, prop):
         rec["baseline_with_change"] = out.strip().splitlines()[0] if out.strip() else "?"
         shutil.copytree(d, os.path.join(SCR, "_mut", k), dirs_exist_ok=True)
         rc_w, out_w = sh(f"/venv/bin/python _mut/{k}/demo.py", cwd=SCR, timeout=900)
-        sh("git checkout -- cola", cwd=SCR)
+        sh("git reset -q --hard HEAD", cwd=SCR)
         rc_o, out_o = sh(f"/venv/bin/python _mut/{k}/demo.py", cwd=SCR, timeout=900)
         rec["demo_exit_with_change"] = rc_w
         rec["demo_exit_without_change"] = rc_o
